@@ -356,10 +356,22 @@ func rerootRestart() (string, string) {
 		return "infra", "the store refuses a new root edge: " + err.Error()
 	}
 	rs, err := client.GetNodes(nc, "root", "all", "", false)
+	// the new root (it is what the store file names as the root from now on) is protected at once, not only
+	// after the next start
+	delErr := client.SendEdgePoint(nc, newRoot, "root", data.Point{Type: data.PointTypeTombstone, Value: 1}, true)
+	rs2, err2 := client.GetNodes(nc, "root", "all", "", false)
 	nc.Close()
 	in.stop(false)
+	if delErr == nil {
+		// (the store file now names a deleted node as its root; starting an instance on it is not tried here -
+		// the start-up code ends the process when it finds no root)
+		return "root-tombstone-accepted", fmt.Sprintf("a tombstone aimed at the node that an acknowledged write has made the instance's root is accepted (the instance then reports root %v, %v)", rs2, err2)
+	}
 	if err != nil || len(rs) != 1 || rs[0].ID != newRoot {
 		return "infra", fmt.Sprintf("after the new root edge the instance reports root %v (%v)", rs, err)
+	}
+	if err2 != nil || len(rs2) != 1 || rs2[0].ID != newRoot {
+		return "root-tombstone-accepted", fmt.Sprintf("a refused tombstone aimed at the replaced root left a trace: the instance reports root %v (%v)", rs2, err2)
 	}
 	in2, err := startInstance(instOpts{dir: dir, id: "reroot-old"})
 	if err != nil {
